@@ -294,6 +294,13 @@ LowDensity ==
                                IN Shrinks(<<"mu_res/T", i>>, m) /\ Shrinks(<<"ln_phi", i>>, f)
         /\ Report("C10.zero_density_limit", <<e.case, "Z->1", S[Len(S)].Z, l>>,
                    FClose(S[Len(S)].Z, "1", "1e-7", "1", "0"))
+     \* ideal mixing at every density of the ladder (down to 3e-13 of the maximum density) and for trace components:
+     \* mu_i^ig(mixture) - mu_i^ig(pure, same T and total density) = T ln x_i   (reduced units)
+     /\ \A k \in 1..Len(S) : (Has(S[k], "ig_mu") /\ Len(S[k].ig_mu) = e.n /\ Len(S[k].ig_mu_pure) = e.n) =>
+           \A i \in 1..e.n :
+              LET xi == FDiv(e.N[i], FSum(e.N)) IN
+              Chk("C10.ideal_mixing", <<e.case, "low density", k, i, xi, l>>, FSub(S[k].ig_mu[i], S[k].ig_mu_pure[i]), FMul(e.T, FLn(xi)), "1e-11",
+                  FAdd(FAdd(FAbs(S[k].ig_mu[i]), FAbs(S[k].ig_mu_pure[i])), e.T), "0")
   /\ cnt' = BumpAll(cnt, {"low_density_series", "lowdens:" \o E.family})
 
 Init == l = 1 /\ cnt = NoCount
